@@ -66,13 +66,14 @@ struct GenOpts
    uint32 maxTopOps;
    bool allowZeroItemFields; // C01: fields emptied through a sharing Message stay, with no items
    bool allowZeroLenRaw;     // zero-length raw items inside the common repertoire (C08 parse legs; the C builders cannot make them)
-   GenOpts() : commonRepertoire(false), pythonSafe(false), allowBursts(true), allowNonFlattenable(true), maxDepth(4), maxTopOps(28), allowZeroItemFields(false), allowZeroLenRaw(false) {}
+   bool allowCopies;         // C01: copies of the Message under construction (kept and re-checked at the end, or modified at once), fields swapped out and back, contents swapped
+   GenOpts() : commonRepertoire(false), pythonSafe(false), allowBursts(true), allowNonFlattenable(true), maxDepth(4), maxTopOps(28), allowZeroItemFields(false), allowZeroLenRaw(false), allowCopies(false) {}
 };
 
 struct GenStats
 {
-   bool hasNaN, crossedInlineArray, hasNonFlattenable, hasZeroLenRaw, hasZeroItemField, sharedSub; int maxDepth; uint32 numOps; uint32 typesMask; uint32 maxItems;
-   GenStats() : hasNaN(false), crossedInlineArray(false), hasNonFlattenable(false), hasZeroLenRaw(false), hasZeroItemField(false), sharedSub(false), maxDepth(0), numOps(0), typesMask(0), maxItems(0) {}
+   bool hasNaN, crossedInlineArray, hasNonFlattenable, hasZeroLenRaw, hasZeroItemField, sharedSub, heldCopy, mutatedCopy, swappedField; int maxDepth; uint32 numOps; uint32 typesMask; uint32 maxItems;
+   GenStats() : hasNaN(false), crossedInlineArray(false), hasNonFlattenable(false), hasZeroLenRaw(false), hasZeroItemField(false), sharedSub(false), heldCopy(false), mutatedCopy(false), swappedField(false), maxDepth(0), numOps(0), typesMask(0), maxItems(0) {}
 };
 
 static const char * const NAMES[] = {"a", "b", "cc", "", "a_much_longer_field_name_123", "caf\xC3\xA9", "\xE2\x82\xAC", "!SnKy", "x y"};
@@ -93,11 +94,21 @@ public:
       msg.what = mod.what = (_bs.u8()%8 == 7) ? 0xFFFFFFFFu : (uint32)(_bs.u8()%4);
       const uint32 nops = _bs.u8()%(depth ? 6 : _o.maxTopOps);
       for (uint32 o=0; o<nops; o++) {Op(depth, msg, mod); st.numOps++;}
+      if (depth == 0) VerifyHeldCopies();
    }
+
+   // a copy of a Message is a Message of its own: whatever was done to the original after the copy was taken, the copy still serialises to the bytes it had then
+   void VerifyHeldCopies()
+   {
+      for (size_t i=0; i<_held.size(); i++) {const std::string now = FlatBytes(*_held[i].first()); if (now != _held[i].second) vf::Fail("a copy taken of a Message (%zu bytes flattened) changed when the original was modified afterwards (now %zu bytes)", _held[i].second.size(), now.size());}
+      _held.clear();
+   }
+   static std::string FlatBytes(const Message & m) {ByteBufferRef b = m.FlattenToByteBuffer(); if (b() == NULL) vf::Fail("FlattenToByteBuffer failed"); return std::string((const char *) b()->GetBuffer(), b()->GetNumBytes());}
 
 private:
    vf::BS & _bs; const GenOpts & _o;
    MessageRef _lastSub; std::shared_ptr<MMsg> _lastSubModel; std::string _lastSubBytes;
+   std::vector<std::pair<MessageRef, std::string> > _held;
 
    status_t ApplyAdd(Message & msg, const String & fn, uint32 tc, const std::string & item, const MessageRef & sub, bool prepend, int replaceIdx)
    {
@@ -175,7 +186,7 @@ private:
 
    void Op(int depth, Message & msg, MMsg & mod)
    {
-      const uint8_t ob = _bs.u8(); uint8_t op = ob%16; if ((_o.allowZeroItemFields)&&(ob >= 244)) op = 16; const uint32 numNames = _o.commonRepertoire ? 7 : NUM_NAMES;
+      const uint8_t ob = _bs.u8(); uint8_t op = ob%16; if ((_o.allowZeroItemFields)&&(ob >= 244)) op = 16; else if ((_o.allowCopies)&&(ob >= 228)&&(ob < 244)) op = 17; const uint32 numNames = _o.commonRepertoire ? 7 : NUM_NAMES;
       const std::string fn = NAMES[_bs.u8()%numNames]; const int fi = mod.find(fn);
       switch(op)
       {
@@ -257,6 +268,70 @@ private:
             uint32 now = 0; uint32 tcNow = 0; if (msg.GetInfo(fn.c_str(), &tcNow, &now).IsError()) vf::Fail("field [%s] vanished from the Message that shared it out", vf::Esc(fn).c_str());
             if (now == 0) {f.items.clear(); f.subs.clear(); NoteCount(before, 0); st.hasZeroItemField = true;}
             else if (now != before) vf::Fail("after emptying a shared field through the other Message this Message holds %u of %zu items", now, before);
+         }
+         break;
+         case 17:
+         {
+            const uint8_t k = _bs.u8()%8;
+            if (k <= 1)
+            {
+               // keep a copy (copy constructor / assignment over a Message in use / pooled copy); it is compared with its own bytes once the original is finished
+               if (_held.size() >= 3) break;
+               MessageRef c; const uint8_t how = _bs.u8()%3;
+               if (how == 0) c.SetRef(new Message(msg)); else if (how == 1) {c = GetMessageFromPool(77); (void) c()->AddString("old", "contents"); (void) c()->AddInt32(fn.c_str(), 5); *c() = msg;} else c = GetMessageFromPool(msg);
+               if (c() == NULL) vf::Fail("copying a Message failed");
+               const std::string cb = FlatBytes(*c()), ob2 = FlatBytes(msg); if (cb != ob2) vf::Fail("a fresh copy of a Message flattens to %zu bytes that differ from the original's %zu", cb.size(), ob2.size());
+               if ((st.hasNaN == false)&&(st.hasNonFlattenable == false)&&((c()->operator==(msg)) == false)) vf::Fail("a fresh copy of a Message (no NaNs, no pointer or tag fields in it) does not compare equal to the original");
+               _held.push_back(std::make_pair(c, cb)); st.heldCopy = true;
+            }
+            else if (k <= 4)
+            {
+               // modify a copy: the original (checked against the model at the end, and against its own bytes here) is none of the copy's business
+               const std::string before = FlatBytes(msg); Message c(msg); if (k == 4) {Message c2; c2 = c; c.SwapContents(c2);}
+               const uint8_t what = _bs.u8()%6; uint32 tcNow = 0, n = 0; const bool has = c.GetInfo(fn.c_str(), &tcNow, &n).IsOK();
+               switch(what)
+               {
+                  case 0: if (has) (void) c.RemoveData(fn.c_str(), 0); break;
+                  case 1: if (has) (void) c.RemoveName(fn.c_str()); break;
+                  case 2: if ((has)&&(tcNow == B_INT32_TYPE)) {(void) c.AddInt32(fn.c_str(), 12345); (void) c.ReplaceInt32(false, fn.c_str(), 0, 54321);} else if ((has)&&(tcNow == B_STRING_TYPE)) {(void) c.AddString(fn.c_str(), "added to the copy"); (void) c.ReplaceString(false, fn.c_str(), 0, "replaced in the copy");} else if ((has)&&(tcNow == B_INT8_TYPE)) {(void) c.PrependInt8(fn.c_str(), 99); (void) c.ReplaceInt8(false, fn.c_str(), n, 98);} else if ((has)&&(tcNow == B_RAW_TYPE)) {(void) c.AddData(fn.c_str(), B_RAW_TYPE, "copy", 4); (void) c.ReplaceData(false, fn.c_str(), B_RAW_TYPE, 0, "COPY!", 5);} else if ((has)&&(tcNow == B_DOUBLE_TYPE)) {(void) c.ReplaceDouble(false, fn.c_str(), 0, 2.5); (void) c.AddDouble(fn.c_str(), 3.5);} break;
+                  case 3: c.Clear(); break;
+                  case 4: if (has) {(void) c.EnsureFieldIsPrivate(fn.c_str()); while(c.RemoveLastData(fn.c_str()).IsOK()) {/* empty */} } break;
+                  default: if (has) {void * p = c.GetPointerToNormalizedFieldData(fn.c_str(), &n, B_ANY_TYPE); if ((p)&&(n > 0)&&((tcNow == B_INT8_TYPE)||(tcNow == B_INT32_TYPE)||(tcNow == B_INT64_TYPE)||(tcNow == B_BOOL_TYPE)||(tcNow == B_INT16_TYPE))) *((uint8_t *)p) ^= 0x01;} break;     // write through the documented raw pointer
+               }
+               const std::string after = FlatBytes(msg); if (after != before) vf::Fail("modifying a copy of a Message (step %u on field [%s]) changed the original: %zu bytes flattened before, %zu after%s", (unsigned)what, vf::Esc(fn).c_str(), before.size(), after.size(), (after.size() == before.size()) ? " (same size, different bytes)" : "");
+               st.mutatedCopy = true;
+            }
+            else if (k == 5)
+            {
+               // swap the field with the like-named, differently filled field of another Message, and back: nothing has changed
+               if (fi < 0) break;
+               const std::string before = FlatBytes(msg); Message side; (void) side.AddInt16(fn.c_str(), 7); (void) side.AddInt16(fn.c_str(), 8); const std::string sideBefore = FlatBytes(side);
+               if (msg.SwapName(fn.c_str(), side).IsError()) vf::Fail("SwapName failed");
+               {uint32 stc = 0; if ((side.GetInfo(fn.c_str(), &stc).IsError())||(stc != mod.f[fi].tc)) vf::Fail("after SwapName the other Message does not hold this Message's field"); uint32 mtc = 0, mn = 0; if ((msg.GetInfo(fn.c_str(), &mtc, &mn).IsError())||(mtc != B_INT16_TYPE)||(mn != 2)) vf::Fail("after SwapName this Message does not hold the other Message's field");}
+               if (msg.SwapName(fn.c_str(), side).IsError()) vf::Fail("SwapName (back) failed");
+               if (FlatBytes(msg) != before) vf::Fail("swapping field [%s] into another Message and back changed the Message", vf::Esc(fn).c_str());
+               if (FlatBytes(side) != sideBefore) vf::Fail("swapping field [%s] into another Message and back changed the other Message", vf::Esc(fn).c_str());
+               st.swappedField = true;
+            }
+            else if (k == 6)
+            {
+               // a field that only this Message has moves over to the other one, and back (to the end of the field order)
+               if (fi < 0) break;
+               Message side; (void) side.AddBool("other", true);
+               if (msg.SwapName(fn.c_str(), side).IsError()) vf::Fail("SwapName (move out) failed");
+               if (msg.HasName(fn.c_str())) vf::Fail("SwapName with a Message that lacks the field did not move it out");
+               if (msg.SwapName(fn.c_str(), side).IsError()) vf::Fail("SwapName (move back) failed");
+               if (side.HasName(fn.c_str())) vf::Fail("SwapName did not move the field back");
+               MField f = mod.f[fi]; mod.f.erase(mod.f.begin()+fi); mod.f.push_back(f); st.swappedField = true;
+            }
+            else
+            {
+               // whole contents swapped into another Message and back through a move
+               const std::string before = FlatBytes(msg); Message other(33); (void) other.AddFloat("f", 1.5f);
+               msg.SwapContents(other); if ((msg.what != 33)||(msg.GetNumNames() != 1)) vf::Fail("SwapContents did not bring the other Message's contents over");
+               Message third(std::move(other)); msg = std::move(third);
+               if (FlatBytes(msg) != before) vf::Fail("contents swapped out of a Message and moved back differ from the original");
+            }
          }
          break;
          case 12: if (fi >= 0)
